@@ -442,6 +442,56 @@ fn main() {
         println!("{{\"summary\":true,\"failures\":{}}}", out.n_fail);
         return;
     }
+    if args.len() >= 2 && args[1] == "selfcheck" {
+        // the oracle's own ISO transcription (iso.rs) against the independent `qrcode` 0.12 crate, stage by stage:
+        // data codewords, interleaved data+EC codewords, complete masked matrix with format/version information
+        use qrcode::bits::Bits;
+        use qrcode::canvas::{Canvas, MaskPattern};
+        use qrcode::types::{Color, EcLevel, Version as QV};
+        let els = [EcLevel::L, EcLevel::M, EcLevel::Q, EcLevel::H];
+        let mps = [MaskPattern::Checkerboard, MaskPattern::HorizontalLines, MaskPattern::VerticalLines, MaskPattern::DiagonalLines, MaskPattern::LargeCheckerboard, MaskPattern::Fields, MaskPattern::Diamonds, MaskPattern::Meadow];
+        let mut r = Rng(0x1234_5678_9ABC_DEF1);
+        let (mut n, mut bad) = (0usize, 0usize);
+        for v in 0..40usize { for l in 0..4usize { for mode in 0..3usize {
+            let ml = max_len(v, mode, l);
+            for len in [ml, r.below(ml + 1)] {
+                let st = r.below(6);
+                let input = payload(&mut r, mode, len, st);
+                let mask = r.below(8);
+                let data = data_codeword_seq(&input, mode, v, l);
+                let mut bits = Bits::new(QV::Normal(v as i16 + 1));
+                match mode { NUM => bits.push_numeric_data(&input).unwrap(), ALNUM => bits.push_alphanumeric_data(&input).unwrap(), _ => bits.push_byte_data(&input).unwrap() };
+                bits.push_terminator(els[l]).unwrap();
+                let qd = bits.into_bytes();
+                n += 1;
+                if qd != data { bad += 1; println!("SELFCHECK-FAIL data codewords v0={} l={} mode={} len={}", v, l, mode, len); continue; }
+                let (qdi, qei) = qrcode::ec::construct_codewords(&qd, QV::Normal(v as i16 + 1), els[l]).unwrap();
+                let fin = final_codewords(&data, v, l);
+                let mut qf = qdi.clone(); qf.extend(qei.iter());
+                if qf != fin { bad += 1; println!("SELFCHECK-FAIL final codewords v0={} l={}", v, l); continue; }
+                let mut cv = Canvas::new(QV::Normal(v as i16 + 1), els[l]);
+                cv.draw_all_functional_patterns();
+                cv.draw_data(&qdi, &qei);
+                cv.apply_mask(mps[mask]);
+                let cols = cv.into_colors();
+                // the oracle's expected matrix
+                let nn = side(v);
+                let zz = zigzag(v);
+                let mut exp = vec![false; nn * nn];
+                for y in 0..nn { for x in 0..nn {
+                    exp[y * nn + x] = match region(v, y, x) { Region::Format => (format_info(l, mask as u32) >> format_bit_index(nn, y, x).unwrap()) & 1 == 1, Region::Data => false, _ => function_dark(v, y, x) };
+                } }
+                for (k, &(y, x)) in zz.iter().enumerate() {
+                    let b = if k < 8 * fin.len() { (fin[k / 8] >> (7 - k % 8)) & 1 == 1 } else { false };
+                    exp[y * nn + x] = b ^ mask_bit(mask, y, x);
+                }
+                let got: Vec<bool> = cols.iter().map(|c| *c == Color::Dark).collect();
+                if got != exp { bad += 1; let k = (0..nn * nn).find(|&k| got[k] != exp[k]).unwrap(); println!("SELFCHECK-FAIL matrix v0={} l={} mask={} first difference at (y={}, x={}) region {:?}", v, l, mask, k / nn, k % nn, region(v, k / nn, k % nn)); }
+            }
+        } } }
+        println!("{{\"selfcheck\":true,\"cases\":{},\"disagreements\":{}}}", n, bad);
+        std::process::exit(if bad == 0 { 0 } else { 1 });
+    }
     eprintln!("usage: fastqr_native sweep <quick|thorough> <seed> <props|all> | case <hex> <ecl|-> <version0|-> <mask|-> <mode|->");
     std::process::exit(2);
 }
